@@ -153,7 +153,7 @@ def regenerate_hintsgen() -> tuple[bool, str]:
     return True, ""
 
 
-GEN_PARTS = {"C02": ("trig", "TrigGen"), "C03": ("fetch", "FetchGen")}
+GEN_PARTS = {"C02": ("trig", "TrigGen"), "C03": ("fetch", "FetchGen"), "C12": ("conn", "ConnGen")}
 
 
 def generated_tie(prop: str) -> dict:
